@@ -22,6 +22,20 @@ PY = os.environ.get("VERIF_PY", "/venv/bin/python")
 SPEC = os.path.join(VERIF, "spec")
 HOOK_GUARD = "CYTHON_VERIF"
 NCPU = os.cpu_count() or 4
+# C36 re-runs other checks with VERIF_SANITIZE=1: instrumented builds, evidence/replay redirected
+SANITIZE = bool(os.environ.get("VERIF_SANITIZE"))
+EVIDENCE_DIR = os.environ.get("VERIF_EVIDENCE_DIR") or os.path.join(VERIF, "evidence")
+REPLAY_DIR = os.environ.get("VERIF_REPLAY_DIR") or os.path.join(VERIF, "replay")
+CRASH_LOGS = []      # filled by calls.run_calls / checks: {"call":..., "stderr":...} of children that died
+
+_asan_rt = None
+
+
+def asan_runtime():
+    global _asan_rt
+    if _asan_rt is None:
+        _asan_rt = subprocess.check_output(["clang", "-print-file-name=libclang_rt.asan-x86_64.so"], text=True).strip()
+    return _asan_rt
 
 _scratch = None
 
@@ -179,10 +193,18 @@ def build_one(spec, workdir, timeout=900):
     c_file, errors (text), facts (any), cython_s, cc_s, dir."""
     d = os.path.join(workdir, spec.name + "_b")
     os.makedirs(d, exist_ok=True)
+    cc, cflags, ldflags = spec.cc, list(spec.cflags), list(spec.ldflags)
+    if SANITIZE:
+        # C36: the same modules, instrumented with ASan + UBSan (clang); reports abort the child
+        cplus = bool(spec.options.get("cplus")) or (cc in ("g++", "clang++"))
+        cc = "clang++" if cplus else "clang"
+        san = ["-fsanitize=address,undefined", "-fno-sanitize-recover=undefined", "-fno-omit-frame-pointer", "-g1"]
+        cflags = cflags + san
+        ldflags = ldflags + ["-fsanitize=address,undefined", "-shared-libasan"]
     req = {
         "name": spec.name, "source": spec.source, "kind": spec.kind,
         "directives": spec.directives, "options": spec.options,
-        "cflags": spec.cflags, "ldflags": spec.ldflags, "cc": spec.cc, "facts": spec.facts,
+        "cflags": cflags, "ldflags": ldflags, "cc": cc, "facts": spec.facts,
         "cython_only": spec.cython_only, "dir": d, "include": py_include(),
         "suffix": ext_suffix(),
     }
@@ -267,6 +289,11 @@ def run_child(code_or_path, args=(), cwd=None, paths=(), env=None, timeout=120, 
     e["PYTHONHASHSEED"] = e.get("PYTHONHASHSEED", "0")
     e["PYTHONDONTWRITEBYTECODE"] = "1"
     e[HOOK_GUARD] = "1"
+    if SANITIZE and not preload:
+        preload = asan_runtime()
+        e["ASAN_OPTIONS"] = "detect_leaks=0:abort_on_error=1:allocator_may_return_null=1:handle_segv=1"
+        e["UBSAN_OPTIONS"] = "halt_on_error=1:print_stacktrace=1:abort_on_error=1"
+        mem_mb = 0        # ASan reserves terabytes of address space; RLIMIT_AS cannot be used
     if preload:
         e["LD_PRELOAD"] = preload
     if env:
@@ -541,7 +568,7 @@ class Reporter(object):
 
     def __init__(self, prop):
         self.prop = prop
-        shutil.rmtree(os.path.join(VERIF, "replay", prop), ignore_errors=True)
+        shutil.rmtree(os.path.join(REPLAY_DIR, prop), ignore_errors=True)
         self.kf = load_known_findings(prop)
         self.kf_hits = {}
         self.violations = []
@@ -575,8 +602,11 @@ class Reporter(object):
                 % len(self.drift))
         if not self.violations:
             return 0
-        rdir = os.path.join(VERIF, "replay", self.prop)
+        rdir = os.path.join(REPLAY_DIR, self.prop)
         os.makedirs(rdir, exist_ok=True)
+        if CRASH_LOGS:
+            with open(os.path.join(rdir, "crash_logs.json"), "w") as f:
+                json.dump(CRASH_LOGS[:200], f, indent=1, default=str)
         seen = {}
         for d, detail in self.violations:
             key = json.dumps(d, sort_keys=True, default=str)
@@ -607,7 +637,7 @@ class Reporter(object):
 
 
 def write_evidence(prop, tier, seed, level, coverage, wall_s, assumptions=(), violations=0):
-    d = os.path.join(VERIF, "evidence")
+    d = EVIDENCE_DIR
     os.makedirs(d, exist_ok=True)
     ev = {
         "property_id": prop, "tier": tier, "seed": int(seed), "level": level,
